@@ -37,6 +37,9 @@ class Fault:
         return False
 
     def make_exc(self, what):
+        if self.kind not in ('ENOSPC', 'EIO', 'ENOENT', 'EACCES', 'EISDIR'):
+            from .kernel import HarnessError
+            raise HarnessError(f"fault kind {self.kind!r} has no exception (where={self.where})")
         code = {'ENOSPC': errno.ENOSPC, 'EIO': errno.EIO, 'ENOENT': errno.ENOENT, 'EACCES': errno.EACCES,
                 'EISDIR': errno.EISDIR}[self.kind]
         cls = {'ENOENT': FileNotFoundError, 'EACCES': PermissionError, 'EISDIR': IsADirectoryError}.get(self.kind, OSError)
@@ -213,6 +216,8 @@ class SimRaw(io.RawIOBase):
                 fs.note_fired(f, self)
                 if f.kind == 'short':
                     n = max(1, min(n - 1, fs.short_len)) if n > 1 else n
+                elif f.kind == 'EINTR':
+                    raise InterruptedError(errno.EINTR, 'injected EINTR on raw write')
                 else:
                     raise f.make_exc('raw write')
         if self.append:
@@ -238,6 +243,8 @@ class SimRaw(io.RawIOBase):
                 fs.note_fired(f, self)
                 if f.kind == 'short':
                     n = 1
+                elif f.kind == 'EINTR':
+                    raise InterruptedError(errno.EINTR, 'injected EINTR on raw read')
                 else:
                     raise f.make_exc('raw read')
         buf[:n] = self.data[self.pos:self.pos + n]
